@@ -36,7 +36,7 @@ package spine
 //@   define isApp(it) = it.Level == api.EventHandlerLevelApplication
 //@   filter C entry src S keep isCore
 //@   filter A entry src S keep isApp
-//@   ensures evn == old(evn) + 1 && ev == store(old(ev), old(evn), payload)
+//@   defines[evn,ev] evn == old(evn) + 1 && ev == store(old(ev), old(evn), payload)
 //@   ensures[C15] sync-count: dn == old(dn) + Ccnt(len(S))
 //@   ensures[C15] sync-each: forall j int :: 0 <= j && j < len(S) && isCore(old(S[j])) ==> dh[old(dn) + Ccnt(j)] == old(S[j].Handler) && dp[old(dn) + Ccnt(j)] == payload && dsp[old(dn) + Ccnt(j)] == old(spawnn)
 //@   ensures[C15] async-count: spawnn == old(spawnn) + Acnt(len(S))
@@ -51,6 +51,19 @@ package spine
 //@   loop 0 invariant o-async: spawnn == old(spawnn) + ite($k >= 2, Acnt(len(S)), 0)
 //@   loop 0 invariant o-async-each: $k >= 2 ==> forall j int :: 0 <= j && j < len(S) && isApp(old(S[j])) ==> spawnfn[old(spawnn) + Acnt(j)] == methodid("(github.com/enbility/spine-go/api.EventHandlerInterface).HandleEvent") && spawnarg(old(spawnn) + Acnt(j), 0, api.EventHandlerInterface) == old(S[j].Handler) && spawnarg(old(spawnn) + Acnt(j), 1, api.EventPayload) == payload
 //@   loop 0 invariant o-held: held(r.muHandle) && !held(r.mu)
+//@   loop 0 invariant o-ev: evn == old(evn) && ev == old(ev)
+//@   loop 0 invariant o-frame: unchangedPre(eventHandlerItem)
+//@   define HE = methodid("(github.com/enbility/spine-go/api.EventHandlerInterface).HandleEvent")
+//@   loop 1 invariant i-frame: unchangedPre(eventHandlerItem)
+//@   loop 1 invariant i-level: level == api.EventHandlerLevelCore || level == api.EventHandlerLevelApplication
+//@   loop 1 invariant i-sync: dn == pre(dn) + ite(level == api.EventHandlerLevelCore, Ccnt($k), 0)
+//@   loop 1 invariant i-sync-old: forall d int :: d < pre(dn) ==> dh[d] == pre(dh)[d] && dp[d] == pre(dp)[d] && dsp[d] == pre(dsp)[d]
+//@   loop 1 invariant i-sync-each: level == api.EventHandlerLevelCore ==> forall j int :: 0 <= j && j < $k && isCore(old(S[j])) ==> dh[pre(dn) + Ccnt(j)] == old(S[j].Handler) && dp[pre(dn) + Ccnt(j)] == payload && dsp[pre(dn) + Ccnt(j)] == pre(spawnn)
+//@   loop 1 invariant i-async: spawnn == pre(spawnn) + ite(level == api.EventHandlerLevelApplication, Acnt($k), 0)
+//@   loop 1 invariant i-async-old: forall d int :: d < pre(spawnn) ==> spawnfn[d] == pre(spawnfn)[d] && spawnarg(d, 0, api.EventHandlerInterface) == pre(spawnarg(d, 0, api.EventHandlerInterface)) && spawnarg(d, 1, api.EventPayload) == pre(spawnarg(d, 1, api.EventPayload))
+//@   loop 1 invariant i-async-each: level == api.EventHandlerLevelApplication ==> forall j int :: 0 <= j && j < $k && isApp(old(S[j])) ==> spawnfn[pre(spawnn) + Acnt(j)] == HE && spawnarg(pre(spawnn) + Acnt(j), 0, api.EventHandlerInterface) == old(S[j].Handler) && spawnarg(pre(spawnn) + Acnt(j), 1, api.EventPayload) == payload
+//@   loop 1 invariant i-held: held(r.muHandle) && !held(r.mu)
+//@   loop 1 invariant i-ev: evn == old(evn) && ev == old(ev)
 // ---------------------------------------------------------------------------------------
 // binding registry (C09, C10, C03)
 
